@@ -154,6 +154,20 @@ func TestVerifGoldilocks(t *testing.T) {
 		if c13ref.FromLE(o[:]).Cmp(N) != 0 {
 			lib.Violation("C13:wrong-result:goldilocks.Order", monGold, lib.D("got", o[:]))
 		}
+		// the identity and the generator handed out are used as accumulators
+		// (Add, Double and Neg work in place): the next Identity() / Generator()
+		// is still the identity / the generator, and G + O = G
+		acc, g2 := cv.Identity(), cv.Generator()
+		acc.Add(cv.Generator())
+		acc.Double()
+		g2.Double()
+		g2.Neg()
+		lib.Count("goldilocks.constants-after-accumulating")
+		if !goldCheck(c, "Identity", "O-after-accumulating-into-a-handed-out-identity", c.O(), cv.Identity(), lib.D()) ||
+			!goldCheck(c, "Generator", "G-after-doubling-a-handed-out-generator", c.G, cv.Generator(), lib.D()) ||
+			!goldCheck(c, "Add", "G+O-after-accumulating", c.G, cv.Add(cv.Generator(), cv.Identity()), lib.D()) {
+			return
+		}
 	}
 
 	n := lib.Scale(400, 40000)
